@@ -584,6 +584,18 @@ func genEBNF(t *rapid.T) *ref.SpecModel {
 			start.Subs = append(start.Subs, item)
 		}
 	}
+	if rapid.IntRange(0, 5).Draw(t, "sameSymbolsShape") == 0 {
+		// the same operator over a sequence and over an alternation of the same symbols: [ "a" "b" ] ... [ "a" | "b" ]
+		k := rapid.SampledFrom([]string{"grp", "opt", "star", "plus"}).Draw(t, "sameSymbolsOp")
+		a, b := &ref.RHS{K: "str", Name: lits[0]}, &ref.RHS{K: "str", Name: lits[1]}
+		seq := &ref.RHS{K: k, Subs: []*ref.RHS{{K: "cat", Subs: []*ref.RHS{cloneRHS(a), cloneRHS(b)}}}}
+		alt := &ref.RHS{K: k, Subs: []*ref.RHS{{K: "alt", Subs: []*ref.RHS{cloneRHS(a), cloneRHS(b)}}}}
+		parts := []*ref.RHS{{K: "str", Name: lits[2]}, seq, {K: "str", Name: lits[2]}, alt, {K: "str", Name: lits[2]}}
+		if rapid.Bool().Draw(t, "altFirst") {
+			parts[1], parts[3] = alt, seq
+		}
+		start = &ref.RHS{K: "cat", Subs: parts}
+	}
 	used := map[string]bool{}
 	start.Walk(func(x *ref.RHS) {
 		if x.K == "nt" {
